@@ -263,9 +263,9 @@ func (n *cnNet) buildGenesis() error {
 		TokenSymbol: "VRF",
 		Ledger:      map[staking.Address]*staking.Account{},
 		Delegations: map[staking.Address]map[staking.Address]*staking.Delegation{},
-		CommonPool:  q(5_000),
+		CommonPool:  q(1_500),
 	}
-	total := uint64(5_000)
+	total := uint64(1_500)
 	for i := 0; i < cfg.Validators; i++ {
 		v := n.vals[i]
 		self := uint64(200 + 60*i)
